@@ -23,22 +23,23 @@ def main():
     env = dict(os.environ, CARGO_TARGET_DIR=tgt, CARGO_NET_OFFLINE="true")
     ran = []
     try:
-        os.makedirs(os.path.join(wt, "tests"), exist_ok=True)
-        shutil.copy(os.path.join(src, "demo.rs"), os.path.join(wt, "tests", "seed_demo.rs"))
-        rc0, out0 = run(["cargo", "test", "--offline", "--test", "seed_demo"], wt, env)
-        ran.append({"cmd": "cargo test --offline --test seed_demo (unchanged tree)", "rc": rc0})
-        demo_pass_unchanged = rc0 == 0
         rca, outa = run(["git", "apply", "--whitespace=nowarn", os.path.join(src, "patch.diff")], wt)
         ran.append({"cmd": "git apply patch.diff", "rc": rca})
         if rca != 0:
             print("patch does not apply:\n" + outa)
-        rc1, out1 = run(["cargo", "test", "--workspace", "--no-fail-fast", "--offline", "--lib", "--doc"], wt, env)
+        rc1, out1 = run(["cargo", "test", "--workspace", "--no-fail-fast", "--offline"], wt, env)
         m = re.findall(r"test result: (\w+)\. (\d+) passed; (\d+) failed", out1)
-        ran.append({"cmd": "cargo test --workspace --no-fail-fast --offline --lib --doc (patched)", "rc": rc1, "results": m})
-        suite_ok = rc1 == 0 and m and int(m[0][1]) == 62
+        ran.append({"cmd": "cargo test --workspace --no-fail-fast --offline (patched, demo absent)", "rc": rc1, "results": m})
+        suite_ok = rc1 == 0 and bool(m) and int(m[0][1]) == 62
+        os.makedirs(os.path.join(wt, "tests"), exist_ok=True)
+        shutil.copy(os.path.join(src, "demo.rs"), os.path.join(wt, "tests", "seed_demo.rs"))
         rc2, out2 = run(["cargo", "test", "--offline", "--test", "seed_demo"], wt, env)
         ran.append({"cmd": "cargo test --offline --test seed_demo (patched)", "rc": rc2})
         demo_fails_patched = rc2 != 0 and "test result: FAILED" in out2
+        run(["git", "checkout", "--", "src"], wt)
+        rc0, out0 = run(["cargo", "test", "--offline", "--test", "seed_demo"], wt, env)
+        ran.append({"cmd": "cargo test --offline --test seed_demo (unchanged tree)", "rc": rc0})
+        demo_pass_unchanged = rc0 == 0
         ok = demo_pass_unchanged and rca == 0 and suite_ok and demo_fails_patched
         print("%s: demo_pass_unchanged=%s applies=%s suite_ok=%s demo_fails_patched=%s => %s" % (
             sid, demo_pass_unchanged, rca == 0, suite_ok, demo_fails_patched, "VALID" if ok else "REJECTED"))
